@@ -334,12 +334,13 @@ def statevector_views(cx, N, rwa, blocks=None):
                 dict(N=2, dtype="Gaussian", Nref=2, form="operators")],
          thorough=[dict(N=n, dtype=d, Nref=r, form=f) for n in (2, 3) for d in ("Lorentzian", "Gaussian")
                    for r in (1, 2) for f in ("tensor", "operators") if not (n == 3 and r == 2)] +
-                  [dict(N=2, dtype=d, Nref=3, Nt=3) for d in ("Lorentzian", "Gaussian")],
+                  [dict(N=2, dtype=d, Nref=3) for d in ("Lorentzian", "Gaussian")],
          functions=[F_P + ":ReducedDensityMatrixPropagator._BOOT_DEPH",
                     F_P + ":ReducedDensityMatrixPropagator._APPLY_DEPH",
                     F_P + ":ReducedDensityMatrixPropagator.__propagate_short_exp_with_relaxation",
                     F_P + ":ReducedDensityMatrixPropagator.__propagate_short_exp_with_rel_operators"],
-         bound="N<=3, 2 (3) stored times, order 2, refinement 1-3; dephasing-rate matrix symmetric with zero diagonal "
+         bound="N<=3, 2 stored times, order 2, refinement 1-3 (3 stored times with refinement 3 did not finish in 25 "
+               "minutes); dephasing-rate matrix symmetric with zero diagonal "
                "(documented form), generator an arbitrary tensor with the C01 identities or a Lindblad form in operator "
                "representation; exp uninterpreted: every stored state equals the alternation of one Taylor sub-step "
                "and the element-wise dephasing factor of THAT sub-step - exp(-gamma dt_sub) (Lorentzian), "
